@@ -284,39 +284,33 @@ func c12TestVariant(c c12Case) (v *verdict, labels []string, nontrivial bool) {
 	h.WriteFiles(src, prog.Files)
 	cfg := h.Config{Seed: fixedSeeds[0]}
 	box := h.NewCaseBox(dir, cfg, h.LevelTest)
-	dd := filepath.Join(dir, "dd")
-	r := box.GarbleX(cfg, src, []string{"-debugdir=" + dd}, nil, "test", "-count=1", "./...")
+	r := box.Garble(cfg, src, "test", "-count=1", "-v", "./...")
 	if strings.Contains(r.Stdout+r.Stderr, "build failed") {
 		stats.Note("garble test failed in a C12 test-variant case (judged by C01): %s", h.Clip(r.Stderr, 300))
 		return nil, append(labels, "garble-test-failed"), false
 	}
+	// the tests print the run-time names of their same-named functions: "zqname <marker> <where> <name>"
+	names := map[string]map[string]string{}
+	for _, l := range strings.Split(r.Stdout, "\n") {
+		f := strings.Fields(l)
+		if len(f) == 4 && f[0] == "zqname" {
+			if names[f[1]] == nil {
+				names[f[1]] = map[string]string{}
+			}
+			names[f[1]][f[2]] = f[3]
+		}
+	}
 	compared := 0
-	for fi, f := range c.Spec.Feats {
-		if f.Kind != "tests" {
-			continue
-		}
-		mk := fmt.Sprintf("Zq%dx", fi)
-		pdir := c.Spec.Pkgs[f.Prov].Dir
-		find := func(base string) string {
-			found := ""
-			filepath.Walk(filepath.Join(dd, "garbled"), func(p string, info os.FileInfo, err error) error {
-				if err == nil && !info.IsDir() && filepath.Base(p) == base {
-					found = p
-				}
-				return nil
-			})
-			return found
-		}
-		provFile := fmt.Sprintf("prov_%s.go", strings.ToLower(mk))
-		ext := fmt.Sprintf("zqx%s_test.go", mk)
-		inPkg := garbledFuncName(filepath.Join(src, pdir, provFile), find(provFile), "sameName"+mk)
-		inExt := garbledFuncName(filepath.Join(src, pdir, ext), find(ext), "sameName"+mk)
-		if inPkg == "" || inExt == "" {
-			continue
-		}
-		compared++
-		if inPkg == inExt {
-			return &verdict{Key: "C12/test-variant/seeded/func", Msg: fmt.Sprintf("with -seed, func sameName%s is declared both in package %s and in its external test package; both are obfuscated to %q although they live in different packages", mk, c.Spec.ImportPath(f.Prov), inPkg)}, labels, true
+	for mk, n := range names {
+		for _, pair := range [][2]string{{"pkg", "ext"}, {"int", "extT"}} {
+			a, b := n[pair[0]], n[pair[1]]
+			if a == "" || b == "" {
+				continue
+			}
+			compared++
+			if a == b {
+				return &verdict{Key: "C12/test-variant/seeded/func", Msg: fmt.Sprintf("with -seed, a function of the same name is declared both in a package (%s) and in its external test package (%s); at run time both are called %q although they live in different packages (marker %s)\n%s", pair[0], pair[1], a, mk, h.Clip(r.Stdout, 1500))}, labels, true
+			}
 		}
 	}
 	return nil, labels, compared > 0
